@@ -42,4 +42,3 @@ func replayFile(path string) int {
 	fmt.Println("not reproduced on the current tree")
 	return 0
 }
-
